@@ -99,15 +99,35 @@ def arrival_timing_case(ctx, case):
         first_ack = {}  # pn -> time of the first ACK frame covering it
         sent = set()
         top = tk.pn - 1
+        # the peer may move to a new address (server SUT): until the server has validated it, what it may send there is bounded by three times
+        # what it received from there - an acknowledgement that does not fit the budget cannot be demanded
+        move = case.get("move") if case["role"] == "server" else None
+        new_addr = ("203.0.113.9", 4499)
+        src = [tk.peer_addr]
+        rx_new = [0]
+        tx_new = [0]
+        validated = [False]
+        budget_log = []  # (time, bytes the server may still send to the new address while it is not validated), taken each time the server has had its turn to send
+        challenges = []
+        NEED = 120  # an ACK-bearing short-header packet fits comfortably (aioquic wants 64 bytes for the frame + 11 header + 16 tag)
+
+        def note_budget():
+            if src[0] == new_addr:
+                budget_log.append((tk.now, float("inf") if validated[0] else 3 * rx_new[0] - tx_new[0]))
 
         def look():
             for v in tk.collect():
+                if v.dest == new_addr:
+                    tx_new[0] += v.size
                 for f in v.frames or []:
                     if f["name"] == "ack" and v.space == "app":
                         for lo, hi in f["acked"]:
                             for p in sent:
                                 if lo <= p <= hi:
                                     first_ack.setdefault(p, tk.now)
+                    elif f["name"] == "path_challenge" and v.dest == new_addr:
+                        challenges.append(bytes(f["data"]))
+            note_budget()
 
         def run_until(t_end):
             # fire every timer the endpoint asks for up to t_end, at the time it names
@@ -122,14 +142,24 @@ def arrival_timing_case(ctx, case):
             tk.now = max(tk.now, t_end)
 
         pn = tk.pn + 1
-        for gap, count, kind in case["runs"]:
+        for ri, (gap, count, kind) in enumerate(case["runs"]):
+            if move and ri == move["at"]:
+                src[0] = new_addr
             for _ in range(count):
                 run_until(tk.now + gap)
                 if sut._close_event is not None:
                     break
                 frames = [{"name": "ping"}] if kind == "ping" else [{"name": "stream", "stream_id": 0 if case["role"] == "server" else 1, "offset": 0, "data": b"", "fin": False}] if kind == "stream" else [{"name": "padding"}]
+                if move and src[0] == new_addr:
+                    if move["pad"]:
+                        frames = frames + [{"name": "padding"}] * move["pad"]
+                    if move["respond"] and challenges:
+                        frames = frames + [{"name": "path_response", "data": challenges.pop()}]
+                        validated[0] = True
                 pkt, _ = tk.build_packet(R.encode_frames(frames), pn=pn, pn_len=2)
-                sut.receive_datagram(pkt, tk.peer_addr, now=tk.now)
+                sut.receive_datagram(pkt, src[0], now=tk.now)
+                if src[0] == new_addr:
+                    rx_new[0] += len(pkt)
                 sent.add(pn)
                 if kind != "padding" and pn > top:
                     arrivals[pn] = tk.now
@@ -139,9 +169,17 @@ def arrival_timing_case(ctx, case):
                 look()
         run_until(tk.now + 0.2)
         late = []
+        waived = 0
         for p, ta in sorted(arrivals.items()):
             ts = first_ack.get(p)
             if ts is None or ts > ta + max_ack_delay + 1e-6:
+                if budget_log and ta + max_ack_delay >= budget_log[0][0]:
+                    # the peer moved before the acknowledgement was due: acknowledgements travel to the new, unvalidated address, and the delay
+                    # counts from the first moment at which the budget for that address allowed one
+                    ok_from = next((t for t, b in budget_log if t >= ta and b >= NEED), None)
+                    if ok_from is None or (ts is not None and ts <= ok_from + max_ack_delay + 1e-6):
+                        waived += 1
+                        continue
                 late.append((p, ta, ts))
         if late and sut._close_event is None:
             p, ta, ts = late[0]
@@ -151,7 +189,7 @@ def arrival_timing_case(ctx, case):
                 case,
             )
         span = max((c * g for g, c, k in case["runs"] if g < 0.001), default=0)
-        ctx.case(("arrivals", repr(case)), nontrivial=len(arrivals) >= 20, classes=["arrivals:" + case["role"], "arrivals:sub-ms-run-longer-than-max-ack-delay" if span > max_ack_delay else "arrivals:short-runs"])
+        ctx.case(("arrivals", repr(case)), nontrivial=len(arrivals) >= 20, classes=["arrivals:" + case["role"], "arrivals:sub-ms-run-longer-than-max-ack-delay" if span > max_ack_delay else "arrivals:short-runs"] + (["arrivals:peer-moved" + ("-and-answers-challenge" if move["respond"] else "-never-validated")] if move and budget_log else []) + (["arrivals:ack-waived-for-amplification-budget"] if waived else []))
 
 
 def arrival_timing_task(ctx, examples, shard):
@@ -159,7 +197,15 @@ def arrival_timing_task(ctx, examples, shard):
     from vlib.harness import run_hypothesis
 
     run = st.tuples(st.sampled_from([0.0001, 0.0004, 0.0009, 0.00099, 0.001, 0.0011, 0.003, 0.012, 0.04]), st.sampled_from([1, 3, 10, 40, 120]), st.sampled_from(["ping", "ping", "stream", "padding"]))
-    strat = st.fixed_dictionaries({"kind": st.just("arrivals"), "role": st.sampled_from(["server", "client"]), "runs": st.lists(run, min_size=1, max_size=6)})
+    move = st.one_of(st.none(), st.fixed_dictionaries({"at": st.integers(0, 3), "respond": st.booleans(), "pad": st.sampled_from([0, 0, 10, 40, 150])}))
+    strat = st.fixed_dictionaries({"kind": st.just("arrivals"), "role": st.sampled_from(["server", "client"]), "runs": st.lists(run, min_size=1, max_size=6), "move": move})
+    # a peer that moves and then sends little: one or two small ack-eliciting packets, then packets that elicit nothing (the budget for the new address
+    # grows while an acknowledgement is owed)
+    gap = st.sampled_from([0.0001, 0.0009, 0.003, 0.012, 0.04])
+    small = st.tuples(
+        st.lists(run, max_size=1), gap, st.sampled_from([1, 1, 2]), st.sampled_from(["ping", "stream"]), gap, st.sampled_from([1, 2, 5, 20]), st.lists(run, max_size=2), st.booleans(), st.sampled_from([0, 0, 3, 8, 20, 60])
+    ).map(lambda t: {"kind": "arrivals", "role": "server", "runs": t[0] + [(t[1], t[2], t[3]), (t[4], t[5], "padding")] + t[6], "move": {"at": len(t[0]), "respond": t[7], "pad": t[8]}})
+    strat = st.one_of(strat, strat, small)
 
     def body(ctx, case):
         arrival_timing_case(ctx, case)
